@@ -7,6 +7,7 @@ import (
 	"go/constant"
 	"go/token"
 	"go/types"
+	"golang.org/x/tools/go/types/typeutil"
 	"sort"
 	"strings"
 
@@ -389,6 +390,9 @@ func countersStartAtZero(p *pw.Path) *pw.Event {
 		if ev.Kind != pw.EvAssign || ev.Obj == nil || ev.Value == nil || seen[ev.Obj] {
 			continue
 		}
+		if ev.Frame != nil && ev.Frame.Parent != nil {
+			continue // a local of an inlined helper: not the operation's own counter
+		}
 		switch ev.Obj.Name() {
 		case "cnt", "n", "count", "total":
 		default:
@@ -415,6 +419,39 @@ func countersStartAtZero(p *pw.Path) *pw.Event {
 
 // borrow runs rules of another property into a scratch report and transfers the selected obligations under a rule id of
 // the current property (used where one structural condition is a necessary condition of several properties).
+// reachBodies returns fd and the declarations of the unexported package functions/methods it calls, transitively up to depth.
+func (c *Ctx) reachBodies(fd *ast.FuncDecl, depth int) []*ast.FuncDecl {
+	info := c.Pkg.TypesInfo
+	decls := map[*types.Func]*ast.FuncDecl{}
+	c.eachFuncDecl(func(d *ast.FuncDecl, fn *types.Func) { decls[fn.Origin()] = d })
+	out := []*ast.FuncDecl{fd}
+	seen := map[*ast.FuncDecl]bool{fd: true}
+	frontier := []*ast.FuncDecl{fd}
+	for d := 0; d < depth; d++ {
+		var next []*ast.FuncDecl
+		for _, cur := range frontier {
+			ast.Inspect(cur.Body, func(n ast.Node) bool {
+				call, ok := n.(*ast.CallExpr)
+				if !ok {
+					return true
+				}
+				callee, _ := typeutil.Callee(info, call).(*types.Func)
+				if callee == nil || callee.Exported() || callee.Pkg() != c.Pkg.Types {
+					return true
+				}
+				if cd := decls[callee.Origin()]; cd != nil && cd.Body != nil && !seen[cd] {
+					seen[cd] = true
+					out = append(out, cd)
+					next = append(next, cd)
+				}
+				return true
+			})
+		}
+		frontier = next
+	}
+	return out
+}
+
 // borrowKinds runs a lender's rules and takes over only its violations of the given kinds (suffix match) as violations of rule; when
 // the lender ran and reported none of them, rule is discharged for construct — whatever else the lender found is its own business.
 func (c *Ctx) borrowKinds(from string, run func(), rule, construct string, lenderRules []string, kinds ...string) {
